@@ -177,7 +177,12 @@ func opAdd(doc V, toks []string, val V) (V, error) {
 
 func opRemove(doc V, toks []string) (V, error) {
 	if len(toks) == 0 {
-		return nil, fmt.Errorf("removing the whole document is not defined")
+		// RFC 6902 does not say what removing the root leaves behind; the most permissive
+		// reading is taken: the document becomes absent and only `add ""` can follow.
+		if IsVoid(doc) {
+			return nil, fmt.Errorf("no document to remove")
+		}
+		return Void{}, nil
 	}
 	return ptrModify(doc, toks, func(parent V, last string) (V, error) {
 		switch c := parent.(type) {
@@ -294,14 +299,14 @@ func ParsePatch(text string) ([]Op, error) {
 
 // Apply6902 evaluates an RFC 6902 patch on doc (atomic: any failing op fails the patch).
 func Apply6902(doc V, ops []Op) (V, error) {
-	if IsVoid(doc) {
-		return nil, fmt.Errorf("no target document")
-	}
 	cur := Clone(doc)
 	for i, o := range ops {
 		toks, err := ParsePointer(o.Path)
 		if err != nil {
 			return nil, err
+		}
+		if IsVoid(cur) && !(o.Op == "add" && len(toks) == 0) {
+			return nil, fmt.Errorf("op %d (%s %s): no document", i, o.Op, o.Path)
 		}
 		switch o.Op {
 		case "add":
